@@ -1,4 +1,4 @@
-import Csverif.Proofs.MockRename
+import Csverif.Proofs.MockDir
 /- From one step to whole call sequences: guard, lock-step run, initial state. -/
 namespace CS.MockFS
 open CS.Path
@@ -25,16 +25,18 @@ def toTreeOp (c : Cfg) (s : St C) : Op C → Option (Tree.Op C)
 
 /-- Hypotheses on one call (evaluated in the state it is made in):
     * path arguments are clean (`Clean`);
-    * `rename`: the destination is not the root, an id-style provider is handed an id (not a path), and —
-      the stated subset of this proof — the object being renamed is a file.  Renaming folders (children
-      re-filed without events, rename over an empty folder) is covered by the model and the correspondence. -/
+    * `delete` does not target the root;
+    * `rename`: the destination is not the root, an id-style provider is handed an id (not a path), and the destination
+      does not lie strictly beneath the object being renamed (see the open finding mock-rename-into-own-subtree). -/
 def OpOk (c : Cfg) (fl : Flavour) (s : St C) : Op C → Prop
   | .create p _ => Clean c fl p
   | .mkdir p => Clean c fl p
   | .infoPath p => Clean c fl p
   | .existsPath p => Clean c fl p
+  | .delete oid => resolve c s oid ≠ some []
   | .rename oid p => Clean c fl p ∧ Path.C c p ≠ [] ∧ (fl.oip = false → oid.head? ≠ some '/') ∧
-      (∀ (h : Nat) (o : Obj C), pv s oid = some (h, o) → o.kind = .file)
+      (∀ (h : Nat) (o : Obj C), pv s oid = some (h, o) →
+        foldL c (Path.C c o.path) <+: foldL c (Path.C c p) → foldL c (Path.C c o.path) = foldL c (Path.C c p))
   | _ => True
 
 def treeStep (c : Cfg) (fl : Flavour) (s : St C) (t : Tree.T C) (op : Op C) : Tree.T C × Option (Tree.Res C) :=
@@ -48,9 +50,9 @@ def Guarded (c : Cfg) (fl : Flavour) (hcfg : HashCfg C H) : St C → List (Op C)
 
 /-- along the run: every result is related to the tree's result and the object table keeps describing the tree -/
 def Agree (c : Cfg) (fl : Flavour) (hcfg : HashCfg C H) : St C → Tree.T C → List (Op C) → Prop
-  | s, t, [] => Rel c s t
+  | s, t, [] => Rel c s t ∧ Tree.TWf t
   | s, t, op :: ops =>
-    Rel c s t ∧
+    Rel c s t ∧ Tree.TWf t ∧
     (match (treeStep c fl s t op).2 with
      | some tr => ResRel c fl hcfg (step c fl hcfg s op).2 tr
      | none => True) ∧
@@ -63,8 +65,73 @@ theorem tree_listdir_fst (cfg : Tree.Cfg) (t : Tree.T C) (tg : Option Tree.Path)
   · rfl
   · split <;> rfl
 
+/-- `rename` of whatever the id resolves to: a file moves alone, a folder with everything beneath it -/
+theorem sim_rename {c : Cfg} (hc : COk2 c) {fl : Flavour} (hcfg : HashCfg C H)
+    {s : St C} {t : Tree.T C} (hi : Inv c fl s) (hr : Rel c s t) (hw : Tree.TWf t) (oid p : Str)
+    (hok : OpOk c fl s (.rename oid p)) :
+    RenameOk (rename c fl hcfg s oid p) p ∧
+    Sim c fl hcfg (rename c fl hcfg s oid p) (Tree.rename (tcfg c fl) t (resolve c s oid) (Path.C c p)) := by
+  obtain ⟨hp, hpn, harg, hg⟩ := hok
+  cases hpv : pv s oid with
+  | none =>
+    exact sim_rename_file hc hcfg hi hr oid p hp hpn harg (fun h o e => by rw [hpv] at e; cases e)
+  | some ho =>
+    obtain ⟨h, o⟩ := ho
+    cases hk : o.kind with
+    | file =>
+      exact sim_rename_file hc hcfg hi hr oid p hp hpn harg
+        (fun h' o' e => by rw [hpv] at e; cases e; exact hk)
+    | dir =>
+      exact sim_rename_dir hc hcfg hi hr hw oid p hp hpn harg
+        (fun h' o' e => by rw [hpv] at e; cases e; exact hk) hg
+
+/-- the tree-side guard follows from the call's guard -/
+theorem tguard_of_opOk {c : Cfg} (hc : COk2 c) {fl : Flavour} {s : St C} (hi : Inv c fl s) (op : Op C) (hok : OpOk c fl s op)
+    (top : Tree.Op C) (ht : toTreeOp c s op = some top) : Tree.TGuard (tcfg c fl) top := by
+  cases op with
+  | delete o =>
+    simp only [toTreeOp, Option.some.injEq] at ht; subst ht
+    intro p hp e; subst e; exact hok hp
+  | rename o p =>
+    simp only [toTreeOp, Option.some.injEq] at ht; subst ht
+    obtain ⟨_, hpn, _, hg⟩ := hok
+    refine ⟨hpn, ?_⟩
+    intro pth hpth
+    unfold resolve at hpth
+    cases hpv : pv s o with
+    | none => rw [hpv] at hpth; cases hpth
+    | some ho =>
+      obtain ⟨h, ob⟩ := ho
+      rw [hpv] at hpth
+      simp only [Option.map_some, Option.some.injEq] at hpth
+      subst hpth
+      rw [tfold_eq, tfold_eq]
+      exact hg h ob hpv
+  | create p d => simp only [toTreeOp, Option.some.injEq] at ht; subst ht; trivial
+  | mkdir p => simp only [toTreeOp, Option.some.injEq] at ht; subst ht; trivial
+  | upload o d => simp only [toTreeOp, Option.some.injEq] at ht; subst ht; trivial
+  | download o => simp only [toTreeOp, Option.some.injEq] at ht; subst ht; trivial
+  | infoPath p => simp only [toTreeOp, Option.some.injEq] at ht; subst ht; trivial
+  | infoOid o => simp only [toTreeOp, Option.some.injEq] at ht; subst ht; trivial
+  | existsPath p => simp only [toTreeOp, Option.some.injEq] at ht; subst ht; trivial
+  | existsOid o => simp only [toTreeOp, Option.some.injEq] at ht; subst ht; trivial
+  | listdir o => simp only [toTreeOp, Option.some.injEq] at ht; subst ht; trivial
+  | hashOid o => simp [toTreeOp] at ht
+  | hashData d => simp [toTreeOp] at ht
+  | events => simp [toTreeOp] at ht
+  | latestCursor => simp [toTreeOp] at ht
+  | currentCursor => simp [toTreeOp] at ht
+  | setCursor v => simp [toTreeOp] at ht
+
+theorem twf_treeStep {c : Cfg} (hc : COk2 c) {fl : Flavour} {s : St C} {t : Tree.T C} (hi : Inv c fl s) (hr : Rel c s t)
+    (hw : Tree.TWf t) (op : Op C) (hok : OpOk c fl s op) : Tree.TWf (treeStep c fl s t op).1 := by
+  unfold treeStep
+  cases ht : toTreeOp c s op with
+  | none => exact hw
+  | some top => exact Tree.twf_step hw hr.tnodup top (tguard_of_opOk hc hi op hok top ht)
+
 theorem sim_step {c : Cfg} (hc : COk2 c) {fl : Flavour} (hfs : c.sep ∉ fl.forbidden) (hcfg : HashCfg C H)
-    {s : St C} {t : Tree.T C} (hi : Inv c fl s) (hr : Rel c s t) (op : Op C) (hok : OpOk c fl s op) :
+    {s : St C} {t : Tree.T C} (hi : Inv c fl s) (hr : Rel c s t) (hw : Tree.TWf t) (op : Op C) (hok : OpOk c fl s op) :
     Inv c fl (step c fl hcfg s op).1 ∧ Rel c (step c fl hcfg s op).1 (treeStep c fl s t op).1 ∧
     (match (treeStep c fl s t op).2 with
      | some tr => ResRel c fl hcfg (step c fl hcfg s op).2 tr
@@ -74,7 +141,7 @@ theorem sim_step {c : Cfg} (hc : COk2 c) {fl : Flavour} (hfs : c.sep ∉ fl.forb
   | mkdir p => exact sim_mkdir hc hfs hcfg hi hr hok
   | upload o d => exact sim_upload hc hcfg hi hr o d
   | download o => exact sim_download hc hcfg hi hr o
-  | rename o p => exact (sim_rename_file hc hcfg hi hr o p hok.1 hok.2.1 hok.2.2.1 hok.2.2.2).2
+  | rename o p => exact (sim_rename hc hcfg hi hr hw o p hok).2
   | delete o => exact sim_delete hc hcfg hi hr o
   | infoPath p => exact ⟨hi, hr, (sim_infoPath hc hcfg hi hr hok).1⟩
   | infoOid o => exact ⟨hi, hr, (sim_infoOid hc hcfg hi hr o).1⟩
@@ -92,25 +159,27 @@ theorem sim_step {c : Cfg} (hc : COk2 c) {fl : Flavour} (hfs : c.sep ∉ fl.forb
   | setCursor v =>
     cases v with
     | none => exact ⟨inv_of_same (s := s) rfl rfl rfl hi, rel_of_same (s := s) rfl rfl hr, trivial⟩
-    | some n => exact ⟨inv_of_same (s := s) rfl rfl rfl hi, rel_of_same (s := s) rfl rfl hr, trivial⟩
+    | int n => exact ⟨inv_of_same (s := s) rfl rfl rfl hi, rel_of_same (s := s) rfl rfl hr, trivial⟩
+    | other => exact ⟨hi, hr, trivial⟩
 
 theorem agree_of_inv {c : Cfg} (hc : COk2 c) {fl : Flavour} (hfs : c.sep ∉ fl.forbidden) (hcfg : HashCfg C H)
-    (ops : List (Op C)) {s : St C} {t : Tree.T C} (hi : Inv c fl s) (hr : Rel c s t)
+    (ops : List (Op C)) {s : St C} {t : Tree.T C} (hi : Inv c fl s) (hr : Rel c s t) (hw : Tree.TWf t)
     (hg : Guarded c fl hcfg s ops) :
     Agree c fl hcfg s t ops ∧ Inv c fl (run c fl hcfg s ops).1 := by
   induction ops generalizing s t with
-  | nil => exact ⟨hr, hi⟩
+  | nil => exact ⟨⟨hr, hw⟩, hi⟩
   | cons op ops ih =>
-    obtain ⟨h1, h2, h3⟩ := sim_step hc hfs hcfg hi hr op hg.1
-    obtain ⟨h4, h5⟩ := ih h1 h2 hg.2
-    exact ⟨⟨hr, h3, h4⟩, h5⟩
+    obtain ⟨h1, h2, h3⟩ := sim_step hc hfs hcfg hi hr hw op hg.1
+    have hw' := twf_treeStep hc hi hr hw op hg.1
+    obtain ⟨h4, h5⟩ := ih h1 h2 hw' hg.2
+    exact ⟨⟨hr, hw, h3, h4⟩, h5⟩
 
 /-! ### the initial state -/
 
 def emptySt : St C := { heap := [], dict := [], events := [], cursor := 0, nextId := 0 }
 
 theorem inv_empty (c : Cfg) (fl : Flavour) : Inv c fl (emptySt : St C) := by
-  refine ⟨by simp [emptySt], ?_, ?_, ?_, ?_, ?_, ?_, ?_, ?_, ?_, ?_⟩ <;>
+  refine ⟨by simp [emptySt], ?_, ?_, ?_, ?_, ?_, ?_, ?_, ?_, ?_, ?_, ?_, ?_⟩ <;>
     intros <;> simp_all [emptySt, dget_nil]
 
 theorem rel_empty (c : Cfg) : Rel c (emptySt : St C) ([] : Tree.T C) := by
